@@ -241,4 +241,67 @@ theorem _root_.PP.Infix.infix_roundtrip_left_partial {t : Table} {cs : List Char
   simp [preParse, mkNode, hsk, stringEndCheck, hsk2, stringEndImpl, hrl]
 
 
+/-- the statement for class TL contains `infix_roundtrip_partial`'s (class T tables, `WF` trees) -/
+theorem _root_.PP.Infix.infix_roundtrip_left_covers_right {t : Table} {cs : List Char} {re : Bool} (hT : ClassT t cs re)
+    (e : Ex) (hwf : WF t cs e) (trail : List Char) (htr : White t.white trail) :
+    ∃ F, ∀ f, F ≤ f →
+      parseString (parseX (fbIds t) (infixGrammar t) (render t e ++ trail) f) (infixGrammar t) rootId t.white
+        (render t e ++ trail) true = .ok (render t e).length [nest t e] :=
+  infix_roundtrip_left_partial hT.toTL e (WF.toWFL e hwf) trail htr
+
+/-! ### non-vacuity: a concrete table of class TL (prefix `-`, then LEFT-associative `*`, LEFT-associative `+`,
+    RIGHT-associative `^^` loosest), a tree with chains of length 3, and the theorem's conclusion evaluated on it -/
+
+def exTableL : Table :=
+  { white := [' ', '\t', '\n', '\r'],
+    base := mkNode [' ', '\t', '\n', '\r'] (.word ['0', '1', '2', '3'] ['0', '1', '2', '3'] 1 none false false true) false true,
+    lpar := ['('], rpar := [')'],
+    levels := [{ arity := 1, right := true, op1 := ['-'] }, { arity := 2, right := false, op1 := ['*'] },
+               { arity := 2, right := false, op1 := ['+'] }, { arity := 2, right := true, op1 := ['^', '^'] }] }
+
+/-- `1 * 2*3 + -0 +(1+2) ^^ 3` -/
+def exTreeL : Ex :=
+  .bin 4
+    (.bin 3
+      (.bin 3 (.bin 2 (.bin 2 (.atom [] ['1']) [' '] (.atom [' '] ['2'])) [] (.atom [] ['3'])) [' ']
+        (.pre 1 [' '] (.atom [] ['0'])))
+      [' '] (.paren [] (.bin 3 (.atom [] ['1']) [] (.atom [] ['2'])) []))
+    [' '] (.atom [' '] ['3'])
+
+example : ClassTL exTableL ['0', '1', '2', '3'] true where
+  base := rfl
+  lsup := rfl
+  rsup := rfl
+  csW := by decide
+  kinds := by decide
+  lparOk := by decide
+  rparOk := by decide
+  opOk := by decide
+  opsInc := by
+    intro i j lvi lvj hi hj hij
+    have hi4 : i < 4 := (List.getElem?_eq_some_iff.mp hi).1
+    have hj4 : j < 4 := (List.getElem?_eq_some_iff.mp hj).1
+    match i, j, hi4, hj4 with
+    | 0, 0, _, _ => exact absurd rfl hij
+    | 1, 1, _, _ => exact absurd rfl hij
+    | 2, 2, _, _ => exact absurd rfl hij
+    | 3, 3, _, _ => exact absurd rfl hij
+    | 0, 1, _, _ | 0, 2, _, _ | 0, 3, _, _ | 1, 0, _, _ | 1, 2, _, _ | 1, 3, _, _
+    | 2, 0, _, _ | 2, 1, _, _ | 2, 3, _, _ | 3, 0, _, _ | 3, 1, _, _ | 3, 2, _, _ =>
+      simp [exTableL] at hi hj; subst hi; subst hj; decide
+  parInc := by decide
+
+example : WFL exTableL ['0', '1', '2', '3'] exTreeL := by
+  simp [exTreeL, WFL, exTableL, White, Ex.lvl]
+
+example : render exTableL exTreeL = "1 * 2*3 + -0 +(1+2) ^^ 3".toList := by decide
+
+example : (match parseString (parseX (fbIds exTableL) (infixGrammar exTableL) (render exTableL exTreeL) 80)
+      (infixGrammar exTableL) rootId exTableL.white (render exTableL exTreeL) true with
+    | .ok e ts => some (e, showToks ts)
+    | _ => none) = some (24, "[[[1 * 2 * 3 ] + [- 0 ] + [1 + 2 ] ] ^^ 3 ] ".toList) := by
+  decide +kernel
+
+example : showTok (nest exTableL exTreeL) = "[[[1 * 2 * 3 ] + [- 0 ] + [1 + 2 ] ] ^^ 3 ]".toList := by decide +kernel
+
 end PP.Infix.Left
